@@ -44,8 +44,8 @@ WORLDS = {
 
 # sessions per quick run (tuned to roughly a minute on 16 cores)
 QUICK_SESSIONS = {
-    'C01': 24000, 'C02': 10000, 'C03': 28000, 'C04': 18000, 'C05': 36000, 'C08': 3200, 'C09': 2400, 'C10': 2600,
-    'C11': 18000, 'C12': 16000, 'C13': 16000, 'C14': 10000, 'C15': 10000, 'C16': 36000, 'C17': 28000, 'C19': 20000, 'C20': 7000,
+    'C01': 36000, 'C02': 16000, 'C03': 40000, 'C04': 18000, 'C05': 36000, 'C08': 4800, 'C09': 2400, 'C10': 4400,
+    'C11': 24000, 'C12': 22000, 'C13': 20000, 'C14': 10000, 'C15': 10000, 'C16': 36000, 'C17': 28000, 'C19': 30000, 'C20': 7000,
 }
 CHUNK = {'tn': 8, 'gr': 50, 'kr': 40}
 
